@@ -23,7 +23,7 @@ def std_layouts(n, tier, seed):
 
 
 def graph_items(prop, tier, seed, oracles, *, max_mult_q=1, opts=None, tags=(), wextras=False, recorded_only=False,
-                with_extra_drops=False, weak_obs=False, end_all=False, n3_edges_q=3, n3_edges_t=4):
+                with_extra_drops=False, weak_obs=False, end_all=False, n3_edges_q=3, n3_edges_t=4, noop=False):
     """the shared shape universe: N<=2 complete, N=3 with few edges, named N=4 families (thorough)"""
     items = []
 
@@ -48,7 +48,7 @@ def graph_items(prop, tier, seed, oracles, *, max_mult_q=1, opts=None, tags=(), 
                               sym=True, oracles=set(oracles), opts=dict(opts or {}), layouts=layouts, tags=list(tags)))
 
     for n in (1, 2):
-        for e in F.shapes(n, max_mult=(max_mult_q if tier == 'quick' else 2), recorded_only=recorded_only):
+        for e in F.shapes(n, max_mult=(max_mult_q if tier == 'quick' else 2), recorded_only=recorded_only, allow_noop=noop):
             add(n, e, F.describe(n, e), std_layouts(n, tier, seed))
     mx = n3_edges_q if tier == 'quick' else n3_edges_t
     for e in F.shapes(3, max_mult=1, max_edges=mx, recorded_only=recorded_only, self_edges=(tier != 'quick')):
@@ -56,6 +56,8 @@ def graph_items(prop, tier, seed, oracles, *, max_mult_q=1, opts=None, tags=(), 
     for n in ((3,) if tier == 'quick' else (3, 4)):
         for nm, e in F.named_shapes(n).items():
             add(n, e, nm, std_layouts(n, tier, seed)[:3])
+            if noop:
+                add(n, e + [(0, 0, True, 'noop')], nm + '+noop-self', std_layouts(n, tier, seed)[:3])
     return items
 
 
@@ -238,7 +240,7 @@ PROPS = {}
 
 
 def items_C06(tier, seed, P):
-    its = graph_items('C06', tier, seed, {'C06'}, wextras=True, with_extra_drops=True) + mult_items('C06', tier, seed, {'C06'}, wextras=True) + history_items('C06', tier, seed, {'C06'})
+    its = graph_items('C06', tier, seed, {'C06'}, wextras=True, with_extra_drops=True, noop=True) + mult_items('C06', tier, seed, {'C06'}, wextras=True) + history_items('C06', tier, seed, {'C06'})
     for it in its:
         # observe the public counters too
         ops = []
@@ -290,7 +292,7 @@ PROPS['C01'] = dict(items=items_C01, bounds=BOUNDS_GRAPH, outside=OUTSIDE, vacui
 
 def items_C02(tier, seed, P):
     o = {'panics_ok': True}
-    return (graph_items('C02', tier, seed, {'C02'}, opts=o, wextras=True) + mult_items('C02', tier, seed, {'C02'}, opts=o, wextras=True)
+    return (graph_items('C02', tier, seed, {'C02'}, opts=o, wextras=True, noop=True) + mult_items('C02', tier, seed, {'C02'}, opts=o, wextras=True)
             + history_items('C02', tier, seed, {'C02'}, opts=o))
 
 
@@ -306,7 +308,7 @@ PROPS['C03'] = dict(items=items_C03, bounds=BOUNDS_GRAPH, outside=OUTSIDE, vacui
 
 def items_C08(tier, seed, P):
     o = {'panics_ok': True}
-    return graph_items('C08', tier, seed, {'C08'}, opts=o) + mult_items('C08', tier, seed, {'C08'}, opts=o) + history_items('C08', tier, seed, {'C08'}, opts=o)
+    return graph_items('C08', tier, seed, {'C08'}, opts=o, noop=True) + mult_items('C08', tier, seed, {'C08'}, opts=o) + history_items('C08', tier, seed, {'C08'}, opts=o)
 
 
 PROPS['C08'] = dict(items=items_C08, bounds=BOUNDS_GRAPH, outside=OUTSIDE, vacuity=vac_paths(), replay_oracles=['C08'])
@@ -428,10 +430,11 @@ def weak_graph_items(prop, tier, seed, oracles, opts=None, end_all=False, dtor_u
 
     shapes = []
     for n in (1, 2):
-        for e in F.shapes(n, max_mult=1, recorded_only=(tier == 'quick')):
+        for e in F.shapes(n, max_mult=1, recorded_only=(tier == 'quick'), allow_noop=True):
             shapes.append((n, e, F.describe(n, e)))
     for nm, e in F.named_shapes(3).items():
         shapes.append((3, e, nm))
+        shapes.append((3, e + [(0, 0, True, 'noop')], nm + '+noop-self'))
     if tier != 'quick':
         for e in F.shapes(3, max_mult=1, max_edges=3, self_edges=False):
             shapes.append((3, e, F.describe(3, e)))
@@ -446,8 +449,33 @@ def weak_graph_items(prop, tier, seed, oracles, opts=None, end_all=False, dtor_u
     return items
 
 
+def consume_weak_items(prop, tier, seed):
+    """values that leave their allocation through try_unwrap / make_mut while Weak handles (symbolic number) remain"""
+    items = []
+    R = lambda i, j: (i, j, True, False)
+    for (n, e, nm) in [(1, [], 'plain1'), (2, [R(0, 1)], 'owner-target'), (2, [(0, 1, False, False)], 'chain-unrecorded')]:
+        for api in ('try_unwrap', 'make_mut'):
+            for nweak in (0, 1, 2):
+                ops = F.build_ops(n, e, extras=False, wextras=True)
+                for k in range(nweak):
+                    ops.append({'op': 'downgrade', 'h': H(0), 'as': 'ow%d' % k})
+                if n > 1:
+                    ops += [{'op': 'downgrade', 'h': H(0), 'as': 'sw'}, {'op': 'store_weak', 'via': H(1), 'w': 'sw'}]
+                ops.append({'op': api, 'h': H(0), 'as': 'res'} if api == 'try_unwrap' else {'op': api, 'h': H(0)})
+                obs = []
+                for k in range(nweak):
+                    obs += [{'op': 'upgrade', 'w': 'ow%d' % k}, {'op': 'w_strong_count', 'w': 'ow%d' % k}, {'op': 'w_weak_count', 'w': 'ow%d' % k}]
+                ops += obs
+                for k in range(nweak):
+                    ops += [{'op': 'wdrop', 'w': 'ow%d' % k}] + [o for o in obs if o.get('w') != 'ow%d' % k and int(o['w'][2:]) > k]
+                items.append(dict(prop=prop, name='%s %s with %d named Weak + symbolic extras' % (nm, api, nweak), script={'ops': ops}, sym=True,
+                                  oracles={'C05'}, opts={'panics_ok': True}, layouts=[None]))
+    return items
+
+
 def items_C05(tier, seed, P):
-    return weak_graph_items('C05', tier, seed, {'C05'}, opts={'panics_ok': True}) + lemma_items('C05', ['downgrade', 'weakdrop'])
+    return (weak_graph_items('C05', tier, seed, {'C05'}, opts={'panics_ok': True}) + consume_weak_items('C05', tier, seed)
+            + lemma_items('C05', ['downgrade', 'weakdrop']))
 
 
 PROPS['C05'] = dict(items=items_C05, bounds=BOUNDS_GRAPH, outside=OUTSIDE, vacuity=vac_paths(), replay_oracles=['C05'])
@@ -506,10 +534,12 @@ PROPS['C16'] = dict(items=items_C16, bounds={'quick': {'unit': 'inc_strong / Rc:
 def c10_shapes(tier):
     R = lambda i, j: (i, j, True, False)
     sh = [(1, [], 'plain1'), (2, [(0, 1, False, False)], 'chain-unrecorded'), (2, [R(0, 1)], 'owner-target'),
-          (1, [(0, 0, True, False)], 'selfclone1'), (2, [R(0, 1), R(1, 0)], 'ring2'), (3, F.named_shapes(3)['ring2+tail'], 'ring2+tail')]
+          (1, [(0, 0, True, False)], 'selfclone1'), (2, [R(0, 1), R(1, 0)], 'ring2'), (3, F.named_shapes(3)['ring2+tail'], 'ring2+tail'),
+          (3, F.named_shapes(3)['owner-of-ring2'], 'owner-of-ring2')]
     if tier != 'quick':
         for nm, e in F.named_shapes(3).items():
-            sh.append((3, e, nm))
+            if nm not in ('ring2+tail', 'owner-of-ring2'):
+                sh.append((3, e, nm))
         sh.append((4, F.named_shapes(4)['tworings4'], 'tworings4'))
     return sh
 
@@ -544,7 +574,7 @@ def items_C10(tier, seed, P):
                 peer = (actor + 1) % n
                 ops += [{'op': 'downgrade', 'h': H(peer), 'as': 'wp'}, {'op': 'store_weak', 'via': H(actor), 'w': 'wp'}]
                 ops.append({'op': 'on_drop', 'obj': actor, 'do': [{'op': 'upgrade', 'w': '^0', 'as': 'kp'}] + acts})
-                for seq in F.drop_sequences(n, n)[:2 if tier == 'quick' else None]:
+                for seq in F.drop_sequences(n, n):
                     o2 = list(ops)
                     for (k, i) in seq:
                         o2 += F.drop_ops([(k, i)])
@@ -596,6 +626,28 @@ def items_C11(tier, seed, P):
                 items.append(dict(prop='C11', name='%s panic@%d drops=%s' % (nm, k, ''.join('%s%d' % s for s in seq)), script={'ops': ops}, sym=True,
                                   oracles={'C11', 'C01', 'C02', 'C05'}, accept_props=['C11', 'C01', 'C02', 'C05'], relabel=True, ub_prop='C11',
                                   opts={}, layouts=std_layouts(n, tier, seed)[:3 if tier == 'quick' else 6]))
+    # a recorded handle given up without unadopt (documented as safe), whose target's destructor panics when it dies alone;
+    # afterwards the former owner's group is orphaned
+    for panic_obj in (2, 0):
+        for keep in (False, True):
+            ops = [{'op': 'new', 'obj': i, 'as': H(i)} for i in range(3)]
+            ops += [{'op': 'extras', 'h': H(i), 'n': 'e%d' % i} for i in range(3)]
+            ops += [{'op': 'clone', 'h': H(1), 'as': 'r0'}, {'op': 'adopt', 'a': H(0), 'b': 'r0'}, {'op': 'store', 'via': H(0), 'h': 'r0'},
+                    {'op': 'clone', 'h': H(0), 'as': 'r1'}, {'op': 'adopt', 'a': H(1), 'b': 'r1'}, {'op': 'store', 'via': H(1), 'h': 'r1'},
+                    {'op': 'clone', 'h': H(2), 'as': 'x0'}, {'op': 'adopt', 'a': H(0), 'b': 'x0'}, {'op': 'store', 'via': H(0), 'h': 'x0'},
+                    {'op': 'take', 'via': H(0), 'slot': 1, 'as': 'st'}, {'op': 'on_drop_panic', 'obj': panic_obj}]
+            for i in range(3):
+                ops.append({'op': 'downgrade', 'h': H(i), 'as': 'ow%d' % i})
+            order = ['st', H(2), H(0), H(1)] if not keep else [H(2), H(0), H(1), 'st']
+            for hn in order:
+                ops.append({'op': 'catch', 'do': [{'op': 'drop', 'h': hn}]})
+                for j in range(3):
+                    ops += [{'op': 'catch', 'do': [{'op': 'upgrade', 'w': 'ow%d' % j}]}, {'op': 'w_strong_count', 'w': 'ow%d' % j}]
+            for j in range(3):
+                ops.append({'op': 'wdrop', 'w': 'ow%d' % j})
+            items.append(dict(prop='C11', name='forgotten-unadopt + panic@%d %s' % (panic_obj, 'kept' if keep else 'dropped'), script={'ops': ops}, sym=True,
+                              oracles={'C11', 'C02', 'C05'}, accept_props=['C11', 'C02', 'C05'], relabel=True, ub_prop='C11',
+                              opts={'stale': True}, tags=['stale'], layouts=std_layouts(3, tier, seed)[:3 if tier == 'quick' else 6]))
     return items
 
 
@@ -660,7 +712,9 @@ def items_C12(tier, seed, P):
     items = []
     R = lambda i, j: (i, j, True, False)
     sh = [(2, [R(0, 1)], 'owner-target'), (2, [R(0, 1), R(1, 0)], 'ring2'), (1, [(0, 0, True, False)], 'selfclone1'),
-          (3, [R(0, 1), R(1, 2)], 'chain3'), (3, F.named_shapes(3)['ring3'], 'ring3'), (3, F.named_shapes(3)['ring2+tail'], 'ring2+tail')]
+          (3, [R(0, 1), R(1, 2)], 'chain3'), (3, F.named_shapes(3)['ring3'], 'ring3'), (3, F.named_shapes(3)['ring2+tail'], 'ring2+tail'),
+          (2, [R(0, 1), R(0, 1)], 'owner-target x2'), (3, [R(0, 1), R(0, 1), R(0, 2)], 'owner of two, one doubled'),
+          (3, F.named_shapes(3)['owner-of-ring2'], 'owner-of-ring2')]
     apis = {
         'try_unwrap': lambda h: [{'op': 'try_unwrap', 'h': h, 'as': 'res'}],
         'try_unwrap+weak': lambda h: [{'op': 'downgrade', 'h': h, 'as': 'wk'}, {'op': 'try_unwrap', 'h': h, 'as': 'res'}, {'op': 'upgrade', 'w': 'wk'}],
@@ -906,3 +960,132 @@ def mult_items(prop, tier, seed, oracles, opts=None, wextras=False):
             items.append(dict(prop=prop, name='%s drops=%s' % (nm, ''.join('%s%d' % q for q in seq)), script={'ops': list(base) + F.drop_ops(seq)}, sym=True,
                               oracles=set(oracles), opts=dict(opts or {}), layouts=std_layouts(n, tier, seed)[:3 if tier == 'quick' else 6]))
     return items
+
+
+# ------------------------------------------------------------------ C09 layout independence (product check over path summaries)
+def _c09_collect(sc, out, kind):
+    import z3
+    segs = []
+    cur = None
+    for t in sc.trace:
+        if t[0] == 'op':
+            cur = [t[1], [], []]
+            segs.append(cur)
+        elif cur is not None:
+            if t[0] == 'dtor':
+                cur[1].append(t[1])
+            elif t[0] == 'ret':
+                cur[2].append((t[1], str(t[2])))
+    summ = tuple((s[0], tuple(sorted(s[1])), tuple(s[2])) for s in segs)
+    pc = z3.And(*sc.E.pc) if sc.E.pc else z3.BoolVal(True)
+    return (pc, summ, kind if kind in ('ok', 'panic', 'abort') else 'stopped:' + kind, dict(sc.symvars))
+
+
+def _c09_post_item(item, res):
+    import z3
+    lays = list(res['summaries_by_layout'].items())
+    if len(lays) < 2:
+        return
+    base_name, base = lays[0]
+    s = z3.Solver()
+    nq = 0
+    for name, paths in lays[1:]:
+        for (pc1, s1, k1, sv1) in base:
+            for (pc2, s2, k2, sv2) in paths:
+                if s1 == s2 and k1 == k2:
+                    continue
+                s.push()
+                s.add(pc1, pc2)
+                nq += 1
+                r = s.check()
+                if r == z3.sat:
+                    m = s.model()
+                    vals = {n: m.eval(v, model_completion=True).as_long() for n, v in {**sv1, **sv2}.items()}
+                    # first differing operation
+                    diff = next((a for a, b in zip(s1, s2) if a != b), None)
+                    res['violations'].append(dict(prop='C09', clause='layout-dependent', model=vals, script=item['script'], layout=None, name=item['name'],
+                                                  detail='the same calls give different outcomes under layouts %s and %s: op %s destroys %s / observes %s under the first'
+                                                  % (base_name, name, diff[0] if diff else '?', list(diff[1]) if diff else k1, list(diff[2])[:3] if diff else ''),
+                                                  decisions=[], op_index=diff[0] if diff else -1, stack=[], trace=[], tags=[], subject=None, rec_same={}, opts=item.get('opts'),
+                                                  layouts=[base_name, name]))
+                    res['outcomes']['violation'] = res['outcomes'].get('violation', 0) + 1
+                    s.pop()
+                    res['queries'] += nq
+                    return
+                s.pop()
+    res['queries'] += nq
+    res['oracle_queries'] += nq
+
+
+def items_C09(tier, seed, P):
+    items = []
+    shapes = []
+    for n in (1, 2):
+        for e in F.shapes(n, max_mult=1 if tier == 'quick' else 2, recorded_only=True, allow_same=False):
+            shapes.append((n, e, F.describe(n, e)))
+    for n in ((3,) if tier == 'quick' else (3, 4)):
+        for nm, e in F.named_shapes(n).items():
+            if 'same' not in nm:
+                shapes.append((n, e, nm))
+    if tier != 'quick':
+        for e in F.shapes(3, max_mult=1, max_edges=4, recorded_only=True, allow_same=False, self_edges=False):
+            shapes.append((3, e, F.describe(3, e)))
+    R = lambda i, j: (i, j, True, False)
+    shapes += [(2, [R(0, 1), R(0, 1), R(1, 0)], 'N2[0=>1 x2, 1=>0]'), (3, [R(0, 1), R(0, 1), R(1, 2), R(2, 1)], 'N3[tail x2 into ring]')]
+    for (n, e, nm) in shapes:
+        base = F.build_ops(n, e, extras=True)
+        for i in range(n):
+            base.append({'op': 'downgrade', 'h': H(i), 'as': 'ow%d' % i})
+        lays = std_layouts(n, tier, seed)[:4 if tier == 'quick' else 10]
+        if (n <= 2 and len(e) <= 2) or (tier != 'quick' and len(e) <= 4):
+            lays = lays + [('fork',)]
+        for seq in F.drop_sequences(n, n):
+            ops = list(base)
+            for (k, i) in seq:
+                ops += F.drop_ops([(k, i)])
+                for j in range(n):
+                    ops += [{'op': 'w_strong_count', 'w': 'ow%d' % j}, {'op': 'w_weak_count', 'w': 'ow%d' % j}]
+            items.append(dict(prop='C09', name='%s drops=%s' % (nm, ''.join('%s%d' % q for q in seq)), script={'ops': ops}, sym=True, oracles=set(),
+                              opts={'panics_ok': True, 'abort_ok': True}, layouts=lays, collect=_c09_collect, post_item=_c09_post_item, accept_props=['C09'],
+                              max_paths=20000))
+    # histories in which one destructor panics (caught by the caller): what the interrupted operation destroyed must not depend on the layout either
+    for (n, e, nm) in [s for s in shapes if s[2] in ('N2[0=>1 1=>0]', 'ring3', 'clique3', 'ring3+chord')]:
+        for k in range(n):
+            base = F.build_ops(n, e, extras=True) + [{'op': 'on_drop_panic', 'obj': k}]
+            for i in range(n):
+                base.append({'op': 'downgrade', 'h': H(i), 'as': 'ow%d' % i})
+            for seq in F.drop_sequences(n, n)[:2]:
+                ops = list(base)
+                for (kk, i) in seq:
+                    ops.append({'op': 'catch', 'do': F.drop_ops([(kk, i)])})
+                    for j in range(n):
+                        ops += [{'op': 'w_strong_count', 'w': 'ow%d' % j}]
+                items.append(dict(prop='C09', name='%s panic@%d drops=%s' % (nm, k, ''.join('%s%d' % q for q in seq)), script={'ops': ops}, sym=True, oracles=set(),
+                                  opts={'panics_ok': True, 'abort_ok': True}, layouts=std_layouts(n, tier, seed)[:4 if tier == 'quick' else 10] + ([('fork',)] if n <= 2 else []),
+                                  collect=_c09_collect, post_item=_c09_post_item, accept_props=['C09'], max_paths=20000))
+    return items
+
+
+def replay_C09(P, native, rep, scratch):
+    import runcheck, scripts as scr
+    cs = runcheck.concretise(rep['script'], rep['model'])
+    seen = {}
+    for seed in range(0, 48):
+        try:
+            res, rc, err = native.run([('replay', cs)], seed=seed, timeout=60)
+        except Exception:
+            continue
+        nt = scr.normalise(res.get('replay', {}).get('trace', []))
+        key = repr(nt) + '|rc=%s' % rc
+        seen.setdefault(key, seed)
+        if len(seen) >= 2:
+            a, b = list(seen.values())[:2]
+            return True, 'native: allocation patterns (seeds) %d and %d give different destroyed sets / counts for the same calls' % (a, b), cs
+    return False, 'native: 48 perturbed allocation patterns all gave the same outcome', cs
+
+
+PROPS['C09'] = dict(items=items_C09, custom_replay=replay_C09,
+                    bounds={'quick': {'programs': 'every stored handle recorded: all fully recorded shapes N<=2, named N=3 shapes, two shapes with doubled edges; every order of dropping the named handles; counts observed through Weak after every operation', 'layouts': 'insertion order, reverse rank, 2 seeded rank orders, and for N<=2 every per-table order (ForkLayout)', 'check': 'for every pair of paths from two layouts whose path conditions are jointly satisfiable (z3), per-operation destroyed sets and observed counts are equal', 'counters': 'symbolic extras'},
+                            'thorough': {'programs': 'held<=2, N=3 <=4 edges, named N=4', 'layouts': '10 rank orders + ForkLayout on shapes with <=4 edges'}},
+                    outside=OUTSIDE, vacuity=lambda results, extra: None if sum(r.get('oracle_queries', 0) + r.get('paths', 0) for r in results) > 0 else 'nothing compared',
+                    replay_oracles=[])
